@@ -22,62 +22,45 @@ def r1(ctx):
     f = ctx.facts
     b = f.body("sync::Capability::merge")
     ctx.touch(b)
-    V = [v["name"] for v in f.adt("sync::Capability")["variants"]]
-    rows = {}
-    for p in P.explore(b):
-        idne = None
-        sv = ov = None
-        for k, v in p.decisions:
-            if k[0] == "cmp" and "call:id(" in k[2] and "call:id(" in k[3]:
-                idne = (bool(v) if k[1] == "!=" else (not bool(v)))
-            if k[0] == "discr" and k[1].startswith("arg:self"):
-                sv = V[v] if isinstance(v, int) else "not-" + V[[vv for kk, vv in []] and 0 or 1] if False else (V[v] if isinstance(v, int) else "other")
-            if k[0] == "discr" and k[1].startswith("arg:other"):
-                ov = V[v] if isinstance(v, int) else "other"
-        replaced = "replace" in P.calls(p)
-        rows[(idne, sv, ov)] = (P.short(p.ret), replaced)
-    # expand 'other'/None into concrete variants and compare with the spec
-    def lookup(idne, s, o):
-        for (i, sv, ov), val in rows.items():
-            if i != idne:
-                continue
-            if sv not in (None, s) and not (sv == "other" and True):
-                continue
-            if sv == "other":
-                # 'otherwise' arm: every variant not explicitly listed for this (idne)
-                listed = {k[1] for k in rows if k[0] == i and k[1] not in (None, "other")}
-                if s in listed:
-                    continue
-            if ov not in (None, o):
-                if ov == "other":
-                    listed = {k[2] for k in rows if k[0] == i and k[1] == sv and k[2] not in (None, "other")}
-                    if o in listed:
-                        continue
-                else:
-                    continue
-            return val
-        return None
-    ok_all = True
+    from . import feval as E
+    CAP = "sync::Capability"
+    V = [v["name"] for v in f.adt(CAP)["variants"]]
     got = {}
-    for idne in (True, False):
-        for s in V:
-            for o in V:
-                val = lookup(idne, s, o)
-                got[(("ids differ" if idne else "same id"), s, o)] = val
-                if idne:
-                    want = ("Err(NamespaceMismatch)", False)
-                elif s == "Read" and o == "Write":
-                    want = ("Ok(1)", True)
+    ok_all = True
+    for ids_differ in (True, False):
+        for sv in V:
+            for ov in V:
+                def oracle(kind, a, b2, site, ids_differ=ids_differ):
+                    if kind == "call" and a == "id":
+                        t, args, it = b2
+                        who = it.tokname(args[0])
+                        return E.Tok("id(doc)") if not ids_differ else E.Tok("id(%s)" % ("self" if "self" in who else "other"))
+                    if kind in ("eq", "cmp") and str(a).startswith("id(") and str(b2).startswith("id("):
+                        same = (a == b2)
+                        return (same if kind == "eq" else (0 if same else 1))
+                    return None
+                heap = {"self": E.variant(f, CAP, sv, E.Tok("payload(self)"))}
+                other = E.variant(f, CAP, ov, E.Tok("payload(other)"))
+                try:
+                    ret, h, ev = E.run(f, b.path, [E.href("self"), other], heap, oracle)
+                    after = h["self"]
+                    replaced = E.describe(after, f) != E.describe(heap["self"], f)
+                    became_other = E.describe(after, f) == E.describe(other, f)
+                    val = (E.describe(ret, f), "self:=other" if (replaced and became_other) else ("self changed" if replaced else "self kept"))
+                except E.Unsupported as e:
+                    val = ("UNSUPPORTED-FORM: %s" % e, "")
+                got[("ids differ" if ids_differ else "same id", sv, ov)] = val
+                if ids_differ:
+                    want = ("Err(NamespaceMismatch)", "self kept")
+                elif sv == "Read" and ov == "Write":
+                    want = ("Ok(1)", "self:=other")
                 else:
-                    want = ("Ok(0)", False)
+                    want = ("Ok(0)", "self kept")
                 if val != want:
                     ok_all = False
-    ctx.check(ok_all, "C07.R1", b.path, "merge-table", "(ids, self, other) -> (result, replaced): %s; spec: Err iff ids differ; replace+true iff (Read,Write); else false" % got, b.sp)
-    # replace(self, other)
-    rp = [t for _, t in b.calls() if t["f"].get("name") == "replace"]
-    ok = len(rp) == 1 and {origin_summary(o) for o in trace(b, rp[0]["a"][0])} == {"arg:self"} and {origin_summary(o) for o in trace(b, rp[0]["a"][1])} == {"arg:other"}
-    ctx.check(ok, "C07.R1", b.path, "replace(self,other)", "the upgrade stores `other` into `self`", b.sp)
-    ctx.floor("C07.R1", 2)
+    ctx.check(ok_all, "C07.R1", b.path, "merge-table",
+              "(ids, self, other) -> (result, effect on self): %s; spec: Err iff ids differ; self replaced by other and true iff (Read, Write); else false and self kept" % got, b.sp)
+    ctx.floor("C07.R1", 1)
 
 
 def r2(ctx):
@@ -270,28 +253,37 @@ def r4(ctx):
 
 def r5(ctx):
     f = ctx.facts
+    from . import feval as E
     b = f.body("sync::Capability::secret_key")
     ctx.touch(b)
-    V = [v["name"] for v in f.adt("sync::Capability")["variants"]]
+    CAP = "sync::Capability"
+    V = [v["name"] for v in f.adt(CAP)["variants"]]
     rows = {}
-    for p in P.explore(b):
-        v = [vv for k, vv in p.decisions if k[0] == "discr"]
-        rows[V[v[0]] if v and isinstance(v[0], int) else "other"] = p.ret[1] if p.ret[0] == "variant" else str(p.ret)
+    for sv in V:
+        try:
+            ret, h, ev = E.run(f, b.path, [E.href("self")], {"self": E.variant(f, CAP, sv, E.Tok("payload"))})
+            rows[sv] = E.describe(ret, f).split("(")[0]
+        except E.Unsupported as e:
+            rows[sv] = "UNSUPPORTED-FORM: %s" % e
     ctx.check(rows == {"Write": "Ok", "Read": "Err"}, "C07.R5", b.path, "ok-iff-Write", "%s" % rows, b.sp)
     rs = f.body("sync::Replica::<'a, I>::secret_key")
     ctx.touch(rs)
     ctx.check(any(callee_matches(t, r"sync::Capability::secret_key$") and t["d"]["l"] == 0 for _, t in rs.calls()), "C07.R5", rs.path, "delegates", "Replica::secret_key = info.capability.secret_key()", rs.sp)
+    ens = Ensures(f, r"sync::(Capability|Replica::<.*>)::secret_key$")
     for name in ("insert", "delete_prefix"):
         cb = f.body("sync::Replica::<'a, I>::%s::{closure#0}" % name)
         ctx.touch(cb)
-        sk = [(bi, t) for bi, t in cb.calls() if t["f"].get("name") == "secret_key"]
         ie = [(bi, t) for bi, t in cb.calls() if t["f"].get("name") == "insert_entry"]
-        ok = len(sk) == 1 and len(ie) == 1
+        ok = len(ie) == 1
         if ok:
-            oc = call_outcomes(cb, sk[0][0])
-            e = oc.get("Ok")
-            ok = bool(e) and cb.edge_dominates(e[0], e[1], ie[0][0])
-        ctx.check(ok, "C07.R5", cb.path, "store-reached-only-with-secret-key", "insert_entry is dominated by the Ok edge of secret_key(): a read-only replica returns before any store call", cb.sp)
+            ok = False
+            for gbi, gt in cb.calls():
+                if ens.is_guard_call(gt, 3):
+                    oc = call_outcomes(cb, gbi)
+                    e = oc.get("Ok")
+                    if e and cb.edge_dominates(e[0], e[1], ie[0][0]):
+                        ok = True
+        ctx.check(ok, "C07.R5", cb.path, "store-reached-only-with-secret-key", "insert_entry is dominated by the Ok edge of a call that succeeds only with the secret key: a read-only replica returns before any store call", cb.sp)
     ctx.floor("C07.R5", 4)
 
 
